@@ -1,6 +1,7 @@
 import Secp.Spec.Ecdsa
 import Secp.Model.Der
 import Secp.Model.PrivKey
+import Secp.Model.PubKey
 import Secp.Gen.FieldIR
 import Secp.Gen.ScalarIR
 /-
@@ -88,6 +89,50 @@ def opPrivFromBytes (args : List String) : String :=
   | [some b] => toHex (privKeySerialize (privKeyFromBytes b)) ++ "\t" ++ toHex (be32 (beNat (b.take 32) % N))
   | _ => "bad-args"
 
+def showXY (p : Nat × Nat) : String := natHex32 p.1 ++ " " ++ natHex32 p.2
+
+/-- specification-level verdict on a byte string as a public key (from ValidSEC1, computed directly) -/
+def specPubKey (b : Bytes) : String :=
+  let x := beNat ((b.take 33).drop 1)
+  let onc (x y : Nat) : Bool := x < P && y < P && (y * y) % P == (x * x * x + 7) % P
+  if b.length = 65 then
+    let y := beNat (b.drop 33)
+    let t := b.headD 0
+    if (t == 4 || (t == 6 && y % 2 == 0) || (t == 7 && y % 2 == 1)) && onc x y then "ok " ++ showXY (x, y) else "reject"
+  else if b.length = 33 then
+    let t := b.headD 0
+    if (t == 2 || t == 3) && x < P then
+      match fsqrt ((x * x * x + 7) % P) with
+      | some r => if r == 0 && t == 3 then "reject" else
+          let y := if (r % 2 == 1) == (t == 3) then r else P - r
+          "ok " ++ showXY (x, y)
+      | none => "reject"
+    else "reject"
+  else "reject"
+
+def opPubParse (args : List String) : String :=
+  match args.map ofHex with
+  | [some b] => showOutcome PubErr.name showXY (parsePubKey b) ++ "\t" ++ specPubKey b
+  | _ => "bad-args"
+
+def opPubRoundtrip (args : List String) : String :=
+  match args.map ofHex with
+  | [some b] =>
+    match parsePubKey b with
+    | .ok (x, y) => "ok " ++ toHex (serializeCompressed x y) ++ " " ++ toHex (serializeUncompressed x y) ++ "\t="
+    | .err e => "err " ++ e.name ++ "\t="
+    | .panic => "PANIC\t="
+  | _ => "bad-args"
+
+def opSchnorrPubParse (args : List String) : String :=
+  match args with
+  | ["nil"] => showOutcome PubErr.name showXY (schnorrParsePubKey true []) ++ "\t="
+  | [h] =>
+    match ofHex h with
+    | some b => showOutcome PubErr.name showXY (schnorrParsePubKey false b) ++ "\t="
+    | none => "bad-hex"
+  | _ => "bad-args"
+
 def runOp (line : String) : String :=
   match (line.splitOn " ").filter (· ≠ "") with
   | [] => "empty"
@@ -97,6 +142,9 @@ def runOp (line : String) : String :=
     | "der_serialize" => opDerSerialize args
     | "kern" => opKern args
     | "keygen" => opKeygen args
+    | "pubkey_parse" => opPubParse args
+    | "pubkey_roundtrip" => opPubRoundtrip args
+    | "schnorr_pubkey_parse" => opSchnorrPubParse args
     | "privkey_frombytes" => opPrivFromBytes args
     | _ => "unknown-op " ++ op
 
